@@ -378,6 +378,10 @@ struct A5 {
     last: Vec<u64>,
     tpl: &'static str,
     passes: u32,
+    /// the run started on a state left by a run on an instance with ANOTHER objective: memories of that run (swarm
+    /// bests ...) legitimately hold values of the other objective until their component re-initialises them, so only
+    /// the population stack (emptied before the run) is audited
+    stack_only: bool,
 }
 
 impl<P: Instrumented> Audit<P> for A5 {
@@ -392,7 +396,11 @@ impl<P: Instrumented> Audit<P> for A5 {
         let mut hashes = Vec::new();
         let mut bad: Option<String> = None;
         let mut n = 0;
+        let stack_only = self.stack_only;
         walk_individuals(state, &mut |place, ind| {
+            if stack_only && !place.contains("population stack") {
+                return;
+            }
             n += 1;
             hashes.push(P::sol_hash(ind.solution()));
             if let Some(o) = ind.get_objective() {
@@ -426,7 +434,7 @@ impl RunVisitor for V5 {
     fn visit<P: Instrumented + Clone + 'static>(&mut self, cfg: ExecResult<Configuration<P>>, problem: P, spec: &RunSpec) -> Self::Out {
         let tpl = spec.tpl.name();
         let Ok(cfg) = cfg else { return Ok(()) }; // constructor failures are C16's subject
-        let audit = Arc::new(Mutex::new(A5 { tpl, ..Default::default() }));
+        let audit = Arc::new(Mutex::new(A5 { tpl, stack_only: crate::fixtures::run::is_warm(spec.seed) && spec.seed & 1 == 1, ..Default::default() }));
         let _ = run_observed_auto(&cfg, &problem, spec.seed, EvalKind::Sequential, audit.clone());
         let a = audit.lock().unwrap();
         if a.steps_with_change > 0 {
